@@ -24,8 +24,8 @@ PROPERTY = 'C11'
 INFO = {
     'level': 'fault_enumeration',
     'rule': ('every cell of mode{fallback,race} x direct{fast,slow,refused,blackhole,reset_on_connect} x '
-             'indirect{pierce_fast,pierce_slow,cannot,silence,server_dead} x ports{clear,obf,both,none} x '
-             'prefer{clear,obf} is run once per batch (exhaustive, 400 cells) plus connect-back cells; the seeded '
+             'indirect{pierce_fast,pierce_slow,cannot,silence,server_dead,server_send_fails} x ports{clear,obf,both,none} x '
+             'prefer{clear,obf} is run once per batch (exhaustive, 480 cells) plus connect-back cells; the seeded '
              'search re-draws cells with varied delays (direct-first, indirect-first, both completing within a few '
              'ms or the same instant), connection type P/D/F, a second concurrent request and cancellation of the '
              'caller at a drawn point; non-trivial = at least one attempt failed, was cancelled or both completed; '
@@ -42,7 +42,7 @@ INFO = {
 
 MODES = ('fallback', 'race')
 DIRECT = ('fast', 'slow', 'refused', 'blackhole', 'reset_on_connect')
-INDIRECT = ('pierce_fast', 'pierce_slow', 'cannot', 'silence', 'server_dead')
+INDIRECT = ('pierce_fast', 'pierce_slow', 'cannot', 'silence', 'server_dead', 'server_send_fails')
 PORTS = ('clear', 'obf', 'both', 'none')
 PREFER = ('clear', 'obf')
 DIRECT_TIMEOUT = 10.0
@@ -56,7 +56,8 @@ def cell_plan(mode, direct, indirect, ports, prefer, typ='P', seed=1, **kw):
         'net': {'base_ms': 5, 'jitter_ms': 0, 'segmentation': 'whole', 'coalesce': True},
         'mode': mode, 'direct': direct, 'indirect': indirect, 'ports': ports, 'prefer': prefer, 'typ': typ,
         'direct_delay': {'fast': 0.02, 'slow': 4.0, 'refused': 0.02, 'blackhole': None, 'reset_on_connect': 0.02}[direct],
-        'indirect_delay': {'pierce_fast': 0.05, 'pierce_slow': 30.0, 'cannot': 0.05, 'silence': None, 'server_dead': None}[indirect],
+        'indirect_delay': {'pierce_fast': 0.05, 'pierce_slow': 30.0, 'cannot': 0.05, 'silence': None, 'server_dead': None,
+                           'server_send_fails': None}[indirect],
         'explicit_addr': False, 'second_call': False, 'cancel': None,
     }
     plan.update(kw)
@@ -70,6 +71,7 @@ def corpus(tier):
     # server dead but address given by the caller: the direct path needs no server
     for mode, direct in itertools.product(MODES, DIRECT):
         out.append(cell_plan(mode, direct, 'server_dead', 'both', 'clear', explicit_addr=True))
+        out.append(cell_plan(mode, direct, 'server_send_fails', 'both', 'clear', explicit_addr=True))
     # every connection type on the plain cells
     for mode, typ in itertools.product(MODES, ('P', 'D', 'F')):
         out.append(cell_plan(mode, 'fast', 'pierce_fast', 'both', 'clear', typ=typ))
@@ -136,7 +138,7 @@ def generate(rng, index, tier):
         plan['indirect_delay'] = max(0.0, plan['direct_delay'] + rng.choice([-2, -1, 0, 0, 1, 2]) * base
                                      + rng.choice([0.0, 0.0, 1e-9, -1e-9, 0.0005]))
         plan['hops'] = rng.randint(-8, 8)
-    plan['explicit_addr'] = rng.random() < (0.5 if indirect == 'server_dead' else 0.1)
+    plan['explicit_addr'] = rng.random() < (0.5 if indirect in ('server_dead', 'server_send_fails') else 0.1)
     plan['second_call'] = rng.random() < 0.15
     if rng.random() < 0.15:
         plan['cancel'] = {'after': rng.choice(('get_peer_address', 'connect_started', 'peer_init_written',
@@ -201,10 +203,24 @@ def _run_request(world: World, plan):
     state = {'direct_attempts': [], 'pierce_links': [], 'relay': [], 'cancel_fired': False}
 
     # --- direct behaviour -------------------------------------------------
+    def reset_server_link():
+        # both ends reset *now*: the client has not seen connection_lost yet, so its next send reaches the
+        # transport and fails in drain() - "server send fails"
+        for conn in world.net.conns:
+            if conn.src.name == 'alice' and conn.dst.name == 'server' and not conn.reset_done:
+                conn.reset('server_send_fails')
+
     def connect_hook(attempt):
         if attempt['src'] != 'alice' or attempt['dst'] != 'bob':
             return None
         state['direct_attempts'].append(attempt)
+        if indirect == 'server_send_fails' and plan['mode'] == 'fallback':
+            # fallback mode writes ConnectToPeer right after the direct attempt ended
+            d0 = plan['direct_delay']
+            if direct in ('fast', 'slow', 'refused', 'reset_on_connect') and d0 is not None:
+                loop.call_later(max(d0, 0.0), reset_server_link)
+            else:
+                loop.call_later(DIRECT_TIMEOUT - 1e-6, reset_server_link)
         if plan.get('hops', 0) < 0:
             attempt['hops'] = -plan['hops']
         d = plan['direct_delay']
@@ -361,6 +377,9 @@ def _run_request(world: World, plan):
             port, obf = expected_port(plan['ports'] if plan['ports'] != 'none' else 'clear', plan['prefer'], bob)
             kwargs = {'ip': bob.host.ip, 'port': port, 'obfuscate': obf}
         t_call = loop.time()
+        if indirect == 'server_send_fails' and (plan['mode'] == 'race' or not plan.get('explicit_addr')):
+            # race mode (and the address lookup) write to the server link in the first step of the call
+            reset_server_link()
         calls.append(world.call(alice, 'cpc0', network.create_peer_connection, 'bob', typ, **kwargs))
         if plan.get('second_call'):
             calls.append(world.call(alice, 'cpc1', network.create_peer_connection, 'bob', typ, **kwargs))
@@ -406,7 +425,7 @@ def _run_request(world: World, plan):
                        and c.state == ConnectionState.CONNECTED
                        and c.connection_state != PeerConnectionState.AWAITING_INIT]
             results['late'].append({'ticket': ticket, 'adopted': bool(adopted)})
-            if indirect != 'server_dead':
+            if indirect not in ('server_dead', 'server_send_fails'):
                 server.send_to('alice', M.CannotConnect.Response(ticket))
         await asyncio.sleep(2.0)
         results['table_conn'] = dict(getattr(network, '_expected_connection_futures', {}) or {})
@@ -420,7 +439,7 @@ def _run_request(world: World, plan):
     world.run(main())
 
     # ------------------------------------------------------------------ oracle
-    server_up = indirect != 'server_dead'
+    server_up = indirect not in ('server_dead', 'server_send_fails')
     have_addr = plan['ports'] != 'none' and (plan.get('explicit_addr') or server_up)
     direct_works = have_addr and direct in ('fast', 'slow')
     indirect_works = server_up and indirect in ('pierce_fast', 'pierce_slow')
@@ -503,7 +522,10 @@ def _run_request(world: World, plan):
     # cancellation has been announced on the event bus (PeerInitializedEvent) and may remain.
     returned_conns = [info.get('sim_conn') for info in results.get('probe', {}).values()]
     if cancelled_run:
-        ct, ci = state.get('cancel_at', (float('inf'), 0))
+        # ... before the cancellation was *delivered*, i.e. before the call ended
+        end_call = calls[0]
+        ct = end_call.returned_at if end_call.returned_at is not None else float('inf')
+        ci = end_call.returned_iter if end_call.returned_iter is not None else 0
         for (t, it, c, sim_conn) in obs['init_conns']:
             if t < ct or (t == ct and it <= ci):
                 returned.append(c)
